@@ -82,7 +82,8 @@ func runC16(c *Ctx) {
 			TrustedCaConfig: &oidcv1.OIDCConfig_TrustedCertificateAuthorityFile{TrustedCertificateAuthorityFile: caFile},
 			TrustedCertificateAuthorityRefreshInterval: durationpb.New(5 * time.Millisecond),
 			AbsoluteSessionTimeout:                     2, IdleSessionTimeout: 1}
-		if i >= 4 { // late tenants: static endpoints, a key set of their own inline
+		if i >= 4 { // late tenants: TLS settings of their own (first loaded while the CA file is being rotated), static endpoints, a key set of their own inline
+			o.TrustedCertificateAuthorityRefreshInterval = durationpb.New(time.Duration(5+i) * time.Millisecond)
 			o.AuthorizationUri, o.TokenUri = w.idp.srv.URL+"/auth", w.idp.srv.URL+"/token"
 			o.JwksConfig = &oidcv1.OIDCConfig_Jwks{Jwks: strings.Replace(w.idp.jwksDoc, `{"keys"`, fmt.Sprintf(`{"tenant":%d,"keys"`, i), 1)}
 		} else if i%2 == 0 {
